@@ -127,6 +127,7 @@ type gctx struct {
 	r        *vh.Rand
 	schemas  []gSchema
 	awkward  bool
+	clash    string // set when a property was given an enum default filter that names no option
 	decorate bool // descriptions and validation rules with characters that need escaping (C05)
 	inline   bool // inline nested objects / oneofs / enums, optional and required marks
 }
@@ -303,9 +304,52 @@ func (g *gctx) props(n int) []gProp {
 			pr.Mark = "?" // an optional array / map (NOTICE-4: proto3_optional on a repeated field)
 		}
 		g.decorateProp(&pr)
+		g.listRules(&pr)
 		out = append(out, pr)
 	}
 	return out
+}
+
+// listRules: filtering / sorting / searching constraints as buildListRequest reads them (the property's
+// quantifier names list methods with filterable, sortable and searchable fields)
+func (g *gctx) listRules(p *gProp) {
+	if g.decorate || p.Ty.Inline != nil || !g.r.Chance(30) {
+		return
+	}
+	has := func(prefix string) bool {
+		for _, a := range p.Attrs {
+			if strings.HasPrefix(a, prefix) {
+				return true
+			}
+		}
+		return false
+	}
+	if has("listRules.") {
+		return
+	}
+	switch p.Ty.Kind {
+	case "float", "integer", "timestamp":
+		p.Attrs = append(p.Attrs, "listRules.sorting.sortable = true")
+		if g.r.Chance(50) {
+			p.Attrs = append(p.Attrs, "listRules.filtering.filterable = true")
+		}
+		if g.r.Chance(20) {
+			p.Attrs = append(p.Attrs, "listRules.sorting.defaultSort = true")
+		}
+	case "string":
+		p.Attrs = append(p.Attrs, "listRules.searching.searchable = true")
+	case "key":
+		p.Attrs = append(p.Attrs, "listRules.filtering.filterable = true")
+	case "enum":
+		if strings.HasPrefix(p.Ty.Ref, "Kind") {
+			def := `["ALPHA"]`
+			if g.clash == "" && g.r.Chance(4) {
+				def = `["NOPE"]` // names no option: the compiler accepts it, buildListRequest does not (NOTICE-4 style class)
+				g.clash = "enumdefault"
+			}
+			p.Attrs = append(p.Attrs, "listRules.filtering.filterable = true", "listRules.filtering.defaultFilters = "+def)
+		}
+	}
 }
 
 func genPackage(r *vh.Rand, awkward bool) *gPackage { return genPackageOpt(r, awkward, false) }
@@ -458,6 +502,9 @@ func genPackageOpt(r *vh.Rand, awkward, decorate bool) *gPackage {
 	if r.Chance(25) {
 		noun := vh.Pick(r, []string{"Account", "Shipment", "Policy"})
 		p.Entity = &gEntity{Name: noun, Data: g.props(r.Range(1, 3))}
+	}
+	if p.Clash == "" && g.clash != "" {
+		p.Clash = g.clash
 	}
 	return p
 }
